@@ -307,6 +307,9 @@ class TreeGen:
             return self.leaf()
         if k < 0.37:
             n = r.choice([1, 2, 2, 2, 3, self.max_children]) if r.random() < 0.9 else 0
+            if r.random() < 0.004:
+                # far more operands than any "reasonable" limit a change may introduce
+                return self.lay(mk(r.choice(self.ops), [self.leaf() for _ in range(r.choice([60, 130, 1030]))]))
             return self.lay(mk(r.choice(self.ops), [self.tree(d - 1) for _ in range(n)]))
         if k < 0.47:
             return self.lay(mk(r.choice(UNARIES), [self.tree(d - 1)]))
